@@ -17,12 +17,15 @@
 -/
 import PyFV.Gen.StencilsUpw
 import PyFV.Props.Examples
+import PyFV.Lemmas.GenEqTac
 import Mathlib.Tactic.Ring
 import Mathlib.Tactic.FieldSimp
 import Mathlib.Tactic.NormNum
 
 set_option linter.unusedSectionVars false
 set_option linter.unusedSimpArgs false
+set_option linter.unusedTactic false
+set_option linter.unreachableTactic false
 set_option linter.unusedVariables false
 
 namespace PyFV.GenEqUpw
@@ -41,10 +44,10 @@ theorem convectionUpwindTerm1D_x_eq (M : Mesh α) (hk : M.kind = .cart1) (u uUp 
     Idx.get, Idx.prev, Idx.set, Nat.add_sub_cancel, Nat.add_eq_right]
   generalize M.ax.n = N
   by_cases h0 : i = 0 <;> by_cases hn : i + 1 = N
-  · subst h0; subst hn; simp only [zero_add, ↓reduceIte, Nat.sub_self]; congr 1 <;> ring
-  · subst h0; simp only [zero_add, ↓reduceIte, hn, Nat.sub_self]; congr 1 <;> ring
-  · subst hn; simp only [↓reduceIte, h0, Nat.add_sub_cancel, Nat.add_eq_right]; congr 1 <;> ring
-  · simp only [↓reduceIte, h0, hn]; congr 1 <;> ring
+  · subst h0; subst hn; simp only [zero_add, ↓reduceIte, Nat.sub_self]; congr 1 <;> geq_cases
+  · subst h0; simp only [zero_add, ↓reduceIte, hn, Nat.sub_self]; congr 1 <;> geq_cases
+  · subst hn; simp only [↓reduceIte, h0, Nat.add_sub_cancel, Nat.add_eq_right]; congr 1 <;> geq_cases
+  · simp only [↓reduceIte, h0, hn]; congr 1 <;> geq_cases
 
 /-- without the extra argument the upwind direction is taken from `u` itself -/
 theorem convectionUpwindTerm1D_x_noarg_eq (M : Mesh α) (hk : M.kind = .cart1) (u : FaceFld α) (i j k : ℕ) :
@@ -59,10 +62,10 @@ theorem convectionUpwindTermCylindrical1D_x_eq (M : Mesh α) (hk : M.kind = .cyl
     Idx.get, Idx.prev, Idx.set, Nat.add_sub_cancel, Nat.add_eq_right]
   generalize M.ax.n = N
   by_cases h0 : i = 0 <;> by_cases hn : i + 1 = N
-  · subst h0; subst hn; simp only [zero_add, ↓reduceIte, Nat.sub_self]; congr 1 <;> ring
-  · subst h0; simp only [zero_add, ↓reduceIte, hn, Nat.sub_self]; congr 1 <;> ring
-  · subst hn; simp only [↓reduceIte, h0, Nat.add_sub_cancel, Nat.add_eq_right]; congr 1 <;> ring
-  · simp only [↓reduceIte, h0, hn]; congr 1 <;> ring
+  · subst h0; subst hn; simp only [zero_add, ↓reduceIte, Nat.sub_self]; congr 1 <;> geq_cases
+  · subst h0; simp only [zero_add, ↓reduceIte, hn, Nat.sub_self]; congr 1 <;> geq_cases
+  · subst hn; simp only [↓reduceIte, h0, Nat.add_sub_cancel, Nat.add_eq_right]; congr 1 <;> geq_cases
+  · simp only [↓reduceIte, h0, hn]; congr 1 <;> geq_cases
 
 /-- without the extra argument the upwind direction is taken from `u` itself -/
 theorem convectionUpwindTermCylindrical1D_x_noarg_eq (M : Mesh α) (hk : M.kind = .cyl1) (u : FaceFld α) (i j k : ℕ) :
@@ -77,10 +80,10 @@ theorem convectionUpwindTermSpherical1D_x_eq (M : Mesh α) (hk : M.kind = .sph1)
     Idx.get, Idx.prev, Idx.set, Nat.add_sub_cancel, Nat.add_eq_right]
   generalize M.ax.n = N
   by_cases h0 : i = 0 <;> by_cases hn : i + 1 = N
-  · subst h0; subst hn; simp only [zero_add, ↓reduceIte, Nat.sub_self]; generalize M.ax.fc 1 ^ 3 - M.ax.fc 0 ^ 3 = V; congr 1 <;> ring
-  · subst h0; simp only [zero_add, ↓reduceIte, hn, Nat.sub_self]; generalize M.ax.fc 1 ^ 3 - M.ax.fc 0 ^ 3 = V; congr 1 <;> ring
-  · subst hn; simp only [↓reduceIte, h0, Nat.add_sub_cancel, Nat.add_eq_right]; generalize M.ax.fc (i + 1) ^ 3 - M.ax.fc i ^ 3 = V; congr 1 <;> ring
-  · simp only [↓reduceIte, h0, hn]; generalize M.ax.fc (i + 1) ^ 3 - M.ax.fc i ^ 3 = V; congr 1 <;> ring
+  · subst h0; subst hn; simp only [zero_add, ↓reduceIte, Nat.sub_self]; generalize M.ax.fc 1 ^ 3 - M.ax.fc 0 ^ 3 = V; congr 1 <;> geq_cases
+  · subst h0; simp only [zero_add, ↓reduceIte, hn, Nat.sub_self]; generalize M.ax.fc 1 ^ 3 - M.ax.fc 0 ^ 3 = V; congr 1 <;> geq_cases
+  · subst hn; simp only [↓reduceIte, h0, Nat.add_sub_cancel, Nat.add_eq_right]; generalize M.ax.fc (i + 1) ^ 3 - M.ax.fc i ^ 3 = V; congr 1 <;> geq_cases
+  · simp only [↓reduceIte, h0, hn]; generalize M.ax.fc (i + 1) ^ 3 - M.ax.fc i ^ 3 = V; congr 1 <;> geq_cases
 
 /-- without the extra argument the upwind direction is taken from `u` itself -/
 theorem convectionUpwindTermSpherical1D_x_noarg_eq (M : Mesh α) (hk : M.kind = .sph1) (u : FaceFld α) (i j k : ℕ) :
@@ -95,10 +98,10 @@ theorem convectionUpwindTerm2D_x_eq (M : Mesh α) (hk : M.kind = .cart2) (u uUp 
     Idx.get, Idx.prev, Idx.set, Nat.add_sub_cancel, Nat.add_eq_right]
   generalize M.ax.n = N
   by_cases h0 : i = 0 <;> by_cases hn : i + 1 = N
-  · subst h0; subst hn; simp only [zero_add, ↓reduceIte, Nat.sub_self]; congr 1 <;> ring
-  · subst h0; simp only [zero_add, ↓reduceIte, hn, Nat.sub_self]; congr 1 <;> ring
-  · subst hn; simp only [↓reduceIte, h0, Nat.add_sub_cancel, Nat.add_eq_right]; congr 1 <;> ring
-  · simp only [↓reduceIte, h0, hn]; congr 1 <;> ring
+  · subst h0; subst hn; simp only [zero_add, ↓reduceIte, Nat.sub_self]; congr 1 <;> geq_cases
+  · subst h0; simp only [zero_add, ↓reduceIte, hn, Nat.sub_self]; congr 1 <;> geq_cases
+  · subst hn; simp only [↓reduceIte, h0, Nat.add_sub_cancel, Nat.add_eq_right]; congr 1 <;> geq_cases
+  · simp only [↓reduceIte, h0, hn]; congr 1 <;> geq_cases
 
 /-- without the extra argument the upwind direction is taken from `u` itself -/
 theorem convectionUpwindTerm2D_x_noarg_eq (M : Mesh α) (hk : M.kind = .cart2) (u : FaceFld α) (i j k : ℕ) :
@@ -111,10 +114,10 @@ theorem convectionUpwindTerm2D_y_eq (M : Mesh α) (hk : M.kind = .cart2) (u uUp 
     Idx.get, Idx.prev, Idx.set, Nat.add_sub_cancel, Nat.add_eq_right]
   generalize M.ay.n = N
   by_cases h0 : j = 0 <;> by_cases hn : j + 1 = N
-  · subst h0; subst hn; simp only [zero_add, ↓reduceIte, Nat.sub_self]; congr 1 <;> ring
-  · subst h0; simp only [zero_add, ↓reduceIte, hn, Nat.sub_self]; congr 1 <;> ring
-  · subst hn; simp only [↓reduceIte, h0, Nat.add_sub_cancel, Nat.add_eq_right]; congr 1 <;> ring
-  · simp only [↓reduceIte, h0, hn]; congr 1 <;> ring
+  · subst h0; subst hn; simp only [zero_add, ↓reduceIte, Nat.sub_self]; congr 1 <;> geq_cases
+  · subst h0; simp only [zero_add, ↓reduceIte, hn, Nat.sub_self]; congr 1 <;> geq_cases
+  · subst hn; simp only [↓reduceIte, h0, Nat.add_sub_cancel, Nat.add_eq_right]; congr 1 <;> geq_cases
+  · simp only [↓reduceIte, h0, hn]; congr 1 <;> geq_cases
 
 /-- without the extra argument the upwind direction is taken from `u` itself -/
 theorem convectionUpwindTerm2D_y_noarg_eq (M : Mesh α) (hk : M.kind = .cart2) (u : FaceFld α) (i j k : ℕ) :
@@ -129,10 +132,10 @@ theorem convectionUpwindTermCylindrical2D_x_eq (M : Mesh α) (hk : M.kind = .cyl
     Idx.get, Idx.prev, Idx.set, Nat.add_sub_cancel, Nat.add_eq_right]
   generalize M.ax.n = N
   by_cases h0 : i = 0 <;> by_cases hn : i + 1 = N
-  · subst h0; subst hn; simp only [zero_add, ↓reduceIte, Nat.sub_self]; congr 1 <;> ring
-  · subst h0; simp only [zero_add, ↓reduceIte, hn, Nat.sub_self]; congr 1 <;> ring
-  · subst hn; simp only [↓reduceIte, h0, Nat.add_sub_cancel, Nat.add_eq_right]; congr 1 <;> ring
-  · simp only [↓reduceIte, h0, hn]; congr 1 <;> ring
+  · subst h0; subst hn; simp only [zero_add, ↓reduceIte, Nat.sub_self]; congr 1 <;> geq_cases
+  · subst h0; simp only [zero_add, ↓reduceIte, hn, Nat.sub_self]; congr 1 <;> geq_cases
+  · subst hn; simp only [↓reduceIte, h0, Nat.add_sub_cancel, Nat.add_eq_right]; congr 1 <;> geq_cases
+  · simp only [↓reduceIte, h0, hn]; congr 1 <;> geq_cases
 
 /-- without the extra argument the upwind direction is taken from `u` itself -/
 theorem convectionUpwindTermCylindrical2D_x_noarg_eq (M : Mesh α) (hk : M.kind = .cyl2) (u : FaceFld α) (i j k : ℕ) :
@@ -145,10 +148,10 @@ theorem convectionUpwindTermCylindrical2D_y_eq (M : Mesh α) (hk : M.kind = .cyl
     Idx.get, Idx.prev, Idx.set, Nat.add_sub_cancel, Nat.add_eq_right]
   generalize M.ay.n = N
   by_cases h0 : j = 0 <;> by_cases hn : j + 1 = N
-  · subst h0; subst hn; simp only [zero_add, ↓reduceIte, Nat.sub_self]; congr 1 <;> ring
-  · subst h0; simp only [zero_add, ↓reduceIte, hn, Nat.sub_self]; congr 1 <;> ring
-  · subst hn; simp only [↓reduceIte, h0, Nat.add_sub_cancel, Nat.add_eq_right]; congr 1 <;> ring
-  · simp only [↓reduceIte, h0, hn]; congr 1 <;> ring
+  · subst h0; subst hn; simp only [zero_add, ↓reduceIte, Nat.sub_self]; congr 1 <;> geq_cases
+  · subst h0; simp only [zero_add, ↓reduceIte, hn, Nat.sub_self]; congr 1 <;> geq_cases
+  · subst hn; simp only [↓reduceIte, h0, Nat.add_sub_cancel, Nat.add_eq_right]; congr 1 <;> geq_cases
+  · simp only [↓reduceIte, h0, hn]; congr 1 <;> geq_cases
 
 /-- without the extra argument the upwind direction is taken from `u` itself -/
 theorem convectionUpwindTermCylindrical2D_y_noarg_eq (M : Mesh α) (hk : M.kind = .cyl2) (u : FaceFld α) (i j k : ℕ) :
@@ -163,10 +166,10 @@ theorem convectionUpwindTermPolar2D_x_eq (M : Mesh α) (hk : M.kind = .pol2) (u 
     Idx.get, Idx.prev, Idx.set, Nat.add_sub_cancel, Nat.add_eq_right]
   generalize M.ax.n = N
   by_cases h0 : i = 0 <;> by_cases hn : i + 1 = N
-  · subst h0; subst hn; simp only [zero_add, ↓reduceIte, Nat.sub_self]; congr 1 <;> ring
-  · subst h0; simp only [zero_add, ↓reduceIte, hn, Nat.sub_self]; congr 1 <;> ring
-  · subst hn; simp only [↓reduceIte, h0, Nat.add_sub_cancel, Nat.add_eq_right]; congr 1 <;> ring
-  · simp only [↓reduceIte, h0, hn]; congr 1 <;> ring
+  · subst h0; subst hn; simp only [zero_add, ↓reduceIte, Nat.sub_self]; congr 1 <;> geq_cases
+  · subst h0; simp only [zero_add, ↓reduceIte, hn, Nat.sub_self]; congr 1 <;> geq_cases
+  · subst hn; simp only [↓reduceIte, h0, Nat.add_sub_cancel, Nat.add_eq_right]; congr 1 <;> geq_cases
+  · simp only [↓reduceIte, h0, hn]; congr 1 <;> geq_cases
 
 /-- without the extra argument the upwind direction is taken from `u` itself -/
 theorem convectionUpwindTermPolar2D_x_noarg_eq (M : Mesh α) (hk : M.kind = .pol2) (u : FaceFld α) (i j k : ℕ) :
@@ -179,10 +182,10 @@ theorem convectionUpwindTermPolar2D_y_eq (M : Mesh α) (hk : M.kind = .pol2) (u 
     Idx.get, Idx.prev, Idx.set, Nat.add_sub_cancel, Nat.add_eq_right]
   generalize M.ay.n = N
   by_cases h0 : j = 0 <;> by_cases hn : j + 1 = N
-  · subst h0; subst hn; simp only [zero_add, ↓reduceIte, Nat.sub_self]; congr 1 <;> ring
-  · subst h0; simp only [zero_add, ↓reduceIte, hn, Nat.sub_self]; congr 1 <;> ring
-  · subst hn; simp only [↓reduceIte, h0, Nat.add_sub_cancel, Nat.add_eq_right]; congr 1 <;> ring
-  · simp only [↓reduceIte, h0, hn]; congr 1 <;> ring
+  · subst h0; subst hn; simp only [zero_add, ↓reduceIte, Nat.sub_self]; congr 1 <;> geq_cases
+  · subst h0; simp only [zero_add, ↓reduceIte, hn, Nat.sub_self]; congr 1 <;> geq_cases
+  · subst hn; simp only [↓reduceIte, h0, Nat.add_sub_cancel, Nat.add_eq_right]; congr 1 <;> geq_cases
+  · simp only [↓reduceIte, h0, hn]; congr 1 <;> geq_cases
 
 /-- without the extra argument the upwind direction is taken from `u` itself -/
 theorem convectionUpwindTermPolar2D_y_noarg_eq (M : Mesh α) (hk : M.kind = .pol2) (u : FaceFld α) (i j k : ℕ) :
@@ -197,10 +200,10 @@ theorem convectionUpwindTerm3D_x_eq (M : Mesh α) (hk : M.kind = .cart3) (u uUp 
     Idx.get, Idx.prev, Idx.set, Nat.add_sub_cancel, Nat.add_eq_right]
   generalize M.ax.n = N
   by_cases h0 : i = 0 <;> by_cases hn : i + 1 = N
-  · subst h0; subst hn; simp only [zero_add, ↓reduceIte, Nat.sub_self]; congr 1 <;> ring
-  · subst h0; simp only [zero_add, ↓reduceIte, hn, Nat.sub_self]; congr 1 <;> ring
-  · subst hn; simp only [↓reduceIte, h0, Nat.add_sub_cancel, Nat.add_eq_right]; congr 1 <;> ring
-  · simp only [↓reduceIte, h0, hn]; congr 1 <;> ring
+  · subst h0; subst hn; simp only [zero_add, ↓reduceIte, Nat.sub_self]; congr 1 <;> geq_cases
+  · subst h0; simp only [zero_add, ↓reduceIte, hn, Nat.sub_self]; congr 1 <;> geq_cases
+  · subst hn; simp only [↓reduceIte, h0, Nat.add_sub_cancel, Nat.add_eq_right]; congr 1 <;> geq_cases
+  · simp only [↓reduceIte, h0, hn]; congr 1 <;> geq_cases
 
 /-- without the extra argument the upwind direction is taken from `u` itself -/
 theorem convectionUpwindTerm3D_x_noarg_eq (M : Mesh α) (hk : M.kind = .cart3) (u : FaceFld α) (i j k : ℕ) :
@@ -213,10 +216,10 @@ theorem convectionUpwindTerm3D_y_eq (M : Mesh α) (hk : M.kind = .cart3) (u uUp 
     Idx.get, Idx.prev, Idx.set, Nat.add_sub_cancel, Nat.add_eq_right]
   generalize M.ay.n = N
   by_cases h0 : j = 0 <;> by_cases hn : j + 1 = N
-  · subst h0; subst hn; simp only [zero_add, ↓reduceIte, Nat.sub_self]; congr 1 <;> ring
-  · subst h0; simp only [zero_add, ↓reduceIte, hn, Nat.sub_self]; congr 1 <;> ring
-  · subst hn; simp only [↓reduceIte, h0, Nat.add_sub_cancel, Nat.add_eq_right]; congr 1 <;> ring
-  · simp only [↓reduceIte, h0, hn]; congr 1 <;> ring
+  · subst h0; subst hn; simp only [zero_add, ↓reduceIte, Nat.sub_self]; congr 1 <;> geq_cases
+  · subst h0; simp only [zero_add, ↓reduceIte, hn, Nat.sub_self]; congr 1 <;> geq_cases
+  · subst hn; simp only [↓reduceIte, h0, Nat.add_sub_cancel, Nat.add_eq_right]; congr 1 <;> geq_cases
+  · simp only [↓reduceIte, h0, hn]; congr 1 <;> geq_cases
 
 /-- without the extra argument the upwind direction is taken from `u` itself -/
 theorem convectionUpwindTerm3D_y_noarg_eq (M : Mesh α) (hk : M.kind = .cart3) (u : FaceFld α) (i j k : ℕ) :
@@ -229,10 +232,10 @@ theorem convectionUpwindTerm3D_z_eq (M : Mesh α) (hk : M.kind = .cart3) (u uUp 
     Idx.get, Idx.prev, Idx.set, Nat.add_sub_cancel, Nat.add_eq_right]
   generalize M.az.n = N
   by_cases h0 : k = 0 <;> by_cases hn : k + 1 = N
-  · subst h0; subst hn; simp only [zero_add, ↓reduceIte, Nat.sub_self]; congr 1 <;> ring
-  · subst h0; simp only [zero_add, ↓reduceIte, hn, Nat.sub_self]; congr 1 <;> ring
-  · subst hn; simp only [↓reduceIte, h0, Nat.add_sub_cancel, Nat.add_eq_right]; congr 1 <;> ring
-  · simp only [↓reduceIte, h0, hn]; congr 1 <;> ring
+  · subst h0; subst hn; simp only [zero_add, ↓reduceIte, Nat.sub_self]; congr 1 <;> geq_cases
+  · subst h0; simp only [zero_add, ↓reduceIte, hn, Nat.sub_self]; congr 1 <;> geq_cases
+  · subst hn; simp only [↓reduceIte, h0, Nat.add_sub_cancel, Nat.add_eq_right]; congr 1 <;> geq_cases
+  · simp only [↓reduceIte, h0, hn]; congr 1 <;> geq_cases
 
 /-- without the extra argument the upwind direction is taken from `u` itself -/
 theorem convectionUpwindTerm3D_z_noarg_eq (M : Mesh α) (hk : M.kind = .cart3) (u : FaceFld α) (i j k : ℕ) :
@@ -247,10 +250,10 @@ theorem convectionUpwindTermCylindrical3D_x_eq (M : Mesh α) (hk : M.kind = .cyl
     Idx.get, Idx.prev, Idx.set, Nat.add_sub_cancel, Nat.add_eq_right]
   generalize M.ax.n = N
   by_cases h0 : i = 0 <;> by_cases hn : i + 1 = N
-  · subst h0; subst hn; simp only [zero_add, ↓reduceIte, Nat.sub_self]; congr 1 <;> ring
-  · subst h0; simp only [zero_add, ↓reduceIte, hn, Nat.sub_self]; congr 1 <;> ring
-  · subst hn; simp only [↓reduceIte, h0, Nat.add_sub_cancel, Nat.add_eq_right]; congr 1 <;> ring
-  · simp only [↓reduceIte, h0, hn]; congr 1 <;> ring
+  · subst h0; subst hn; simp only [zero_add, ↓reduceIte, Nat.sub_self]; congr 1 <;> geq_cases
+  · subst h0; simp only [zero_add, ↓reduceIte, hn, Nat.sub_self]; congr 1 <;> geq_cases
+  · subst hn; simp only [↓reduceIte, h0, Nat.add_sub_cancel, Nat.add_eq_right]; congr 1 <;> geq_cases
+  · simp only [↓reduceIte, h0, hn]; congr 1 <;> geq_cases
 
 /-- without the extra argument the upwind direction is taken from `u` itself -/
 theorem convectionUpwindTermCylindrical3D_x_noarg_eq (M : Mesh α) (hk : M.kind = .cyl3) (u : FaceFld α) (i j k : ℕ) :
@@ -263,10 +266,10 @@ theorem convectionUpwindTermCylindrical3D_y_eq (M : Mesh α) (hk : M.kind = .cyl
     Idx.get, Idx.prev, Idx.set, Nat.add_sub_cancel, Nat.add_eq_right]
   generalize M.ay.n = N
   by_cases h0 : j = 0 <;> by_cases hn : j + 1 = N
-  · subst h0; subst hn; simp only [zero_add, ↓reduceIte, Nat.sub_self]; congr 1 <;> ring
-  · subst h0; simp only [zero_add, ↓reduceIte, hn, Nat.sub_self]; congr 1 <;> ring
-  · subst hn; simp only [↓reduceIte, h0, Nat.add_sub_cancel, Nat.add_eq_right]; congr 1 <;> ring
-  · simp only [↓reduceIte, h0, hn]; congr 1 <;> ring
+  · subst h0; subst hn; simp only [zero_add, ↓reduceIte, Nat.sub_self]; congr 1 <;> geq_cases
+  · subst h0; simp only [zero_add, ↓reduceIte, hn, Nat.sub_self]; congr 1 <;> geq_cases
+  · subst hn; simp only [↓reduceIte, h0, Nat.add_sub_cancel, Nat.add_eq_right]; congr 1 <;> geq_cases
+  · simp only [↓reduceIte, h0, hn]; congr 1 <;> geq_cases
 
 /-- without the extra argument the upwind direction is taken from `u` itself -/
 theorem convectionUpwindTermCylindrical3D_y_noarg_eq (M : Mesh α) (hk : M.kind = .cyl3) (u : FaceFld α) (i j k : ℕ) :
@@ -279,10 +282,10 @@ theorem convectionUpwindTermCylindrical3D_z_eq (M : Mesh α) (hk : M.kind = .cyl
     Idx.get, Idx.prev, Idx.set, Nat.add_sub_cancel, Nat.add_eq_right]
   generalize M.az.n = N
   by_cases h0 : k = 0 <;> by_cases hn : k + 1 = N
-  · subst h0; subst hn; simp only [zero_add, ↓reduceIte, Nat.sub_self]; congr 1 <;> ring
-  · subst h0; simp only [zero_add, ↓reduceIte, hn, Nat.sub_self]; congr 1 <;> ring
-  · subst hn; simp only [↓reduceIte, h0, Nat.add_sub_cancel, Nat.add_eq_right]; congr 1 <;> ring
-  · simp only [↓reduceIte, h0, hn]; congr 1 <;> ring
+  · subst h0; subst hn; simp only [zero_add, ↓reduceIte, Nat.sub_self]; congr 1 <;> geq_cases
+  · subst h0; simp only [zero_add, ↓reduceIte, hn, Nat.sub_self]; congr 1 <;> geq_cases
+  · subst hn; simp only [↓reduceIte, h0, Nat.add_sub_cancel, Nat.add_eq_right]; congr 1 <;> geq_cases
+  · simp only [↓reduceIte, h0, hn]; congr 1 <;> geq_cases
 
 /-- without the extra argument the upwind direction is taken from `u` itself -/
 theorem convectionUpwindTermCylindrical3D_z_noarg_eq (M : Mesh α) (hk : M.kind = .cyl3) (u : FaceFld α) (i j k : ℕ) :
@@ -297,10 +300,10 @@ theorem convectionUpwindTermSpherical3D_x_eq (M : Mesh α) (hk : M.kind = .sph3)
     Idx.get, Idx.prev, Idx.set, Nat.add_sub_cancel, Nat.add_eq_right]
   generalize M.ax.n = N
   by_cases h0 : i = 0 <;> by_cases hn : i + 1 = N
-  · subst h0; subst hn; simp only [zero_add, ↓reduceIte, Nat.sub_self]; congr 1 <;> ring
-  · subst h0; simp only [zero_add, ↓reduceIte, hn, Nat.sub_self]; congr 1 <;> ring
-  · subst hn; simp only [↓reduceIte, h0, Nat.add_sub_cancel, Nat.add_eq_right]; congr 1 <;> ring
-  · simp only [↓reduceIte, h0, hn]; congr 1 <;> ring
+  · subst h0; subst hn; simp only [zero_add, ↓reduceIte, Nat.sub_self]; congr 1 <;> geq_cases
+  · subst h0; simp only [zero_add, ↓reduceIte, hn, Nat.sub_self]; congr 1 <;> geq_cases
+  · subst hn; simp only [↓reduceIte, h0, Nat.add_sub_cancel, Nat.add_eq_right]; congr 1 <;> geq_cases
+  · simp only [↓reduceIte, h0, hn]; congr 1 <;> geq_cases
 
 /-- without the extra argument the upwind direction is taken from `u` itself -/
 theorem convectionUpwindTermSpherical3D_x_noarg_eq (M : Mesh α) (hk : M.kind = .sph3) (u : FaceFld α) (i j k : ℕ) :
@@ -313,10 +316,10 @@ theorem convectionUpwindTermSpherical3D_y_eq (M : Mesh α) (hk : M.kind = .sph3)
     Idx.get, Idx.prev, Idx.set, Nat.add_sub_cancel, Nat.add_eq_right]
   generalize M.ay.n = N
   by_cases h0 : j = 0 <;> by_cases hn : j + 1 = N
-  · subst h0; subst hn; simp only [zero_add, ↓reduceIte, Nat.sub_self]; congr 1 <;> ring
-  · subst h0; simp only [zero_add, ↓reduceIte, hn, Nat.sub_self]; congr 1 <;> ring
-  · subst hn; simp only [↓reduceIte, h0, Nat.add_sub_cancel, Nat.add_eq_right]; congr 1 <;> ring
-  · simp only [↓reduceIte, h0, hn]; congr 1 <;> ring
+  · subst h0; subst hn; simp only [zero_add, ↓reduceIte, Nat.sub_self]; congr 1 <;> geq_cases
+  · subst h0; simp only [zero_add, ↓reduceIte, hn, Nat.sub_self]; congr 1 <;> geq_cases
+  · subst hn; simp only [↓reduceIte, h0, Nat.add_sub_cancel, Nat.add_eq_right]; congr 1 <;> geq_cases
+  · simp only [↓reduceIte, h0, hn]; congr 1 <;> geq_cases
 
 /-- without the extra argument the upwind direction is taken from `u` itself -/
 theorem convectionUpwindTermSpherical3D_y_noarg_eq (M : Mesh α) (hk : M.kind = .sph3) (u : FaceFld α) (i j k : ℕ) :
@@ -329,10 +332,10 @@ theorem convectionUpwindTermSpherical3D_z_eq (M : Mesh α) (hk : M.kind = .sph3)
     Idx.get, Idx.prev, Idx.set, Nat.add_sub_cancel, Nat.add_eq_right]
   generalize M.az.n = N
   by_cases h0 : k = 0 <;> by_cases hn : k + 1 = N
-  · subst h0; subst hn; simp only [zero_add, ↓reduceIte, Nat.sub_self]; congr 1 <;> ring
-  · subst h0; simp only [zero_add, ↓reduceIte, hn, Nat.sub_self]; congr 1 <;> ring
-  · subst hn; simp only [↓reduceIte, h0, Nat.add_sub_cancel, Nat.add_eq_right]; congr 1 <;> ring
-  · simp only [↓reduceIte, h0, hn]; congr 1 <;> ring
+  · subst h0; subst hn; simp only [zero_add, ↓reduceIte, Nat.sub_self]; congr 1 <;> geq_cases
+  · subst h0; simp only [zero_add, ↓reduceIte, hn, Nat.sub_self]; congr 1 <;> geq_cases
+  · subst hn; simp only [↓reduceIte, h0, Nat.add_sub_cancel, Nat.add_eq_right]; congr 1 <;> geq_cases
+  · simp only [↓reduceIte, h0, hn]; congr 1 <;> geq_cases
 
 /-- without the extra argument the upwind direction is taken from `u` itself -/
 theorem convectionUpwindTermSpherical3D_z_noarg_eq (M : Mesh α) (hk : M.kind = .sph3) (u : FaceFld α) (i j k : ℕ) :
@@ -361,7 +364,7 @@ theorem dispatch_convectionUpwindTerm_eq (k : Kind) :
 theorem fn_fsign_eq (x : α) :
     Gen.StencilsUpw.fn_fsign x = fsign (Gen.StencilsUpw.fn_fsign_eps1 : α) x := by
   simp only [Gen.StencilsUpw.fn_fsign, fsign, ite_mul, mul_ite, one_mul, zero_mul, mul_one, mul_zero]
-  split_ifs <;> rfl
+  split_ifs <;> geq_ring
 
 /-- the threshold read from the source is the IEEE double nearest to `1e-16` -/
 theorem fn_fsign_eps1_val : (Gen.StencilsUpw.fn_fsign_eps1 : α) = 2028240960365167 / 2 ^ 104 := by
@@ -385,20 +388,20 @@ theorem convectionTvdRHS1D_eq (M : Mesh α) (hk : M.kind = .cart1) (u uUp : Face
   · rcases Nat.eq_zero_or_pos i with h0 | h0
     · subst h0; subst hn
       simp only [↓reduceIte, zero_add, hN]
-      ring
+      geq_cases
     · obtain ⟨i, rfl⟩ : ∃ v', i = v' + 1 := ⟨i - 1, by omega⟩
       simp only [↓reduceIte, hn, hN, Nat.add_sub_cancel, Nat.add_eq_zero_iff, one_ne_zero, and_false,
         Nat.le_add_left, Nat.add_assoc, Nat.reduceAdd]
-      ring
+      geq_cases
   · have hn' : i + 1 < N := by omega
     rcases Nat.eq_zero_or_pos i with h0 | h0
     · subst h0
       simp only [↓reduceIte, zero_add, hN, hn, hn']
-      ring
+      geq_cases
     · obtain ⟨i, rfl⟩ : ∃ v', i = v' + 1 := ⟨i - 1, by omega⟩
       simp only [↓reduceIte, hn, hn', hN, Nat.add_sub_cancel, Nat.add_eq_zero_iff, one_ne_zero, and_false,
         Nat.le_add_left, Nat.add_assoc, Nat.reduceAdd]
-      ring
+      geq_cases
 
 /-- without the extra argument the upwind direction is taken from `u` itself -/
 theorem convectionTvdRHS1D_noarg_eq (M : Mesh α) (hk : M.kind = .cart1) (u : FaceFld α) (FL : α → α)
@@ -421,20 +424,20 @@ theorem convectionTvdRHSCylindrical1D_eq (M : Mesh α) (hk : M.kind = .cyl1) (u 
   · rcases Nat.eq_zero_or_pos i with h0 | h0
     · subst h0; subst hn
       simp only [↓reduceIte, zero_add, hN]
-      ring
+      geq_cases
     · obtain ⟨i, rfl⟩ : ∃ v', i = v' + 1 := ⟨i - 1, by omega⟩
       simp only [↓reduceIte, hn, hN, Nat.add_sub_cancel, Nat.add_eq_zero_iff, one_ne_zero, and_false,
         Nat.le_add_left, Nat.add_assoc, Nat.reduceAdd]
-      ring
+      geq_cases
   · have hn' : i + 1 < N := by omega
     rcases Nat.eq_zero_or_pos i with h0 | h0
     · subst h0
       simp only [↓reduceIte, zero_add, hN, hn, hn']
-      ring
+      geq_cases
     · obtain ⟨i, rfl⟩ : ∃ v', i = v' + 1 := ⟨i - 1, by omega⟩
       simp only [↓reduceIte, hn, hn', hN, Nat.add_sub_cancel, Nat.add_eq_zero_iff, one_ne_zero, and_false,
         Nat.le_add_left, Nat.add_assoc, Nat.reduceAdd]
-      ring
+      geq_cases
 
 /-- without the extra argument the upwind direction is taken from `u` itself -/
 theorem convectionTvdRHSCylindrical1D_noarg_eq (M : Mesh α) (hk : M.kind = .cyl1) (u : FaceFld α) (FL : α → α)
@@ -457,20 +460,20 @@ theorem convectionTvdRHSSpherical1D_eq (M : Mesh α) (hk : M.kind = .sph1) (u uU
   · rcases Nat.eq_zero_or_pos i with h0 | h0
     · subst h0; subst hn
       simp only [↓reduceIte, zero_add, hN]
-      ring
+      geq_cases
     · obtain ⟨i, rfl⟩ : ∃ v', i = v' + 1 := ⟨i - 1, by omega⟩
       simp only [↓reduceIte, hn, hN, Nat.add_sub_cancel, Nat.add_eq_zero_iff, one_ne_zero, and_false,
         Nat.le_add_left, Nat.add_assoc, Nat.reduceAdd]
-      ring
+      geq_cases
   · have hn' : i + 1 < N := by omega
     rcases Nat.eq_zero_or_pos i with h0 | h0
     · subst h0
       simp only [↓reduceIte, zero_add, hN, hn, hn']
-      ring
+      geq_cases
     · obtain ⟨i, rfl⟩ : ∃ v', i = v' + 1 := ⟨i - 1, by omega⟩
       simp only [↓reduceIte, hn, hn', hN, Nat.add_sub_cancel, Nat.add_eq_zero_iff, one_ne_zero, and_false,
         Nat.le_add_left, Nat.add_assoc, Nat.reduceAdd]
-      ring
+      geq_cases
 
 /-- without the extra argument the upwind direction is taken from `u` itself -/
 theorem convectionTvdRHSSpherical1D_noarg_eq (M : Mesh α) (hk : M.kind = .sph1) (u : FaceFld α) (FL : α → α)
@@ -493,20 +496,20 @@ theorem convectionTvdRHS2D_x_eq (M : Mesh α) (hk : M.kind = .cart2) (u uUp : Fa
   · rcases Nat.eq_zero_or_pos i with h0 | h0
     · subst h0; subst hn
       simp only [↓reduceIte, zero_add, hN]
-      ring
+      geq_cases
     · obtain ⟨i, rfl⟩ : ∃ v', i = v' + 1 := ⟨i - 1, by omega⟩
       simp only [↓reduceIte, hn, hN, Nat.add_sub_cancel, Nat.add_eq_zero_iff, one_ne_zero, and_false,
         Nat.le_add_left, Nat.add_assoc, Nat.reduceAdd]
-      ring
+      geq_cases
   · have hn' : i + 1 < N := by omega
     rcases Nat.eq_zero_or_pos i with h0 | h0
     · subst h0
       simp only [↓reduceIte, zero_add, hN, hn, hn']
-      ring
+      geq_cases
     · obtain ⟨i, rfl⟩ : ∃ v', i = v' + 1 := ⟨i - 1, by omega⟩
       simp only [↓reduceIte, hn, hn', hN, Nat.add_sub_cancel, Nat.add_eq_zero_iff, one_ne_zero, and_false,
         Nat.le_add_left, Nat.add_assoc, Nat.reduceAdd]
-      ring
+      geq_cases
 
 theorem convectionTvdRHS2D_y_eq (M : Mesh α) (hk : M.kind = .cart2) (u uUp : FaceFld α) (FL : α → α)
     (φ : CellFld α) (i j k : ℕ) (hv : j < M.ay.n) :
@@ -523,20 +526,20 @@ theorem convectionTvdRHS2D_y_eq (M : Mesh α) (hk : M.kind = .cart2) (u uUp : Fa
   · rcases Nat.eq_zero_or_pos j with h0 | h0
     · subst h0; subst hn
       simp only [↓reduceIte, zero_add, hN]
-      ring
+      geq_cases
     · obtain ⟨j, rfl⟩ : ∃ v', j = v' + 1 := ⟨j - 1, by omega⟩
       simp only [↓reduceIte, hn, hN, Nat.add_sub_cancel, Nat.add_eq_zero_iff, one_ne_zero, and_false,
         Nat.le_add_left, Nat.add_assoc, Nat.reduceAdd]
-      ring
+      geq_cases
   · have hn' : j + 1 < N := by omega
     rcases Nat.eq_zero_or_pos j with h0 | h0
     · subst h0
       simp only [↓reduceIte, zero_add, hN, hn, hn']
-      ring
+      geq_cases
     · obtain ⟨j, rfl⟩ : ∃ v', j = v' + 1 := ⟨j - 1, by omega⟩
       simp only [↓reduceIte, hn, hn', hN, Nat.add_sub_cancel, Nat.add_eq_zero_iff, one_ne_zero, and_false,
         Nat.le_add_left, Nat.add_assoc, Nat.reduceAdd]
-      ring
+      geq_cases
 
 theorem convectionTvdRHS2D_eq (M : Mesh α) (hk : M.kind = .cart2) (u uUp : FaceFld α) (FL : α → α)
     (φ : CellFld α) (i j k : ℕ) (hi : i < M.ax.n) (hj : j < M.ay.n) :
@@ -545,7 +548,7 @@ theorem convectionTvdRHS2D_eq (M : Mesh α) (hk : M.kind = .cart2) (u uUp : Face
   rw [hs, convectionTvdRHS2D_x_eq M hk u uUp FL φ i j k hi, convectionTvdRHS2D_y_eq M hk u uUp FL φ i j k hj]
   simp only [tvdRHS, divergence, sumDirs, hk, Kind.active, Kind.dim, Nat.not_ofNat_le_one, Nat.reduceLeDiff, le_refl,
     decide_true, decide_false, Bool.false_eq_true, ↓reduceIte, add_zero]
-  ring
+  geq_cases
 
 /-- without the extra argument the upwind direction is taken from `u` itself -/
 theorem convectionTvdRHS2D_noarg_eq (M : Mesh α) (hk : M.kind = .cart2) (u : FaceFld α) (FL : α → α)
@@ -568,20 +571,20 @@ theorem convectionTvdRHSCylindrical2D_x_eq (M : Mesh α) (hk : M.kind = .cyl2) (
   · rcases Nat.eq_zero_or_pos i with h0 | h0
     · subst h0; subst hn
       simp only [↓reduceIte, zero_add, hN]
-      ring
+      geq_cases
     · obtain ⟨i, rfl⟩ : ∃ v', i = v' + 1 := ⟨i - 1, by omega⟩
       simp only [↓reduceIte, hn, hN, Nat.add_sub_cancel, Nat.add_eq_zero_iff, one_ne_zero, and_false,
         Nat.le_add_left, Nat.add_assoc, Nat.reduceAdd]
-      ring
+      geq_cases
   · have hn' : i + 1 < N := by omega
     rcases Nat.eq_zero_or_pos i with h0 | h0
     · subst h0
       simp only [↓reduceIte, zero_add, hN, hn, hn']
-      ring
+      geq_cases
     · obtain ⟨i, rfl⟩ : ∃ v', i = v' + 1 := ⟨i - 1, by omega⟩
       simp only [↓reduceIte, hn, hn', hN, Nat.add_sub_cancel, Nat.add_eq_zero_iff, one_ne_zero, and_false,
         Nat.le_add_left, Nat.add_assoc, Nat.reduceAdd]
-      ring
+      geq_cases
 
 theorem convectionTvdRHSCylindrical2D_y_eq (M : Mesh α) (hk : M.kind = .cyl2) (u uUp : FaceFld α) (FL : α → α)
     (φ : CellFld α) (i j k : ℕ) (hv : j < M.ay.n) :
@@ -598,20 +601,20 @@ theorem convectionTvdRHSCylindrical2D_y_eq (M : Mesh α) (hk : M.kind = .cyl2) (
   · rcases Nat.eq_zero_or_pos j with h0 | h0
     · subst h0; subst hn
       simp only [↓reduceIte, zero_add, hN]
-      ring
+      geq_cases
     · obtain ⟨j, rfl⟩ : ∃ v', j = v' + 1 := ⟨j - 1, by omega⟩
       simp only [↓reduceIte, hn, hN, Nat.add_sub_cancel, Nat.add_eq_zero_iff, one_ne_zero, and_false,
         Nat.le_add_left, Nat.add_assoc, Nat.reduceAdd]
-      ring
+      geq_cases
   · have hn' : j + 1 < N := by omega
     rcases Nat.eq_zero_or_pos j with h0 | h0
     · subst h0
       simp only [↓reduceIte, zero_add, hN, hn, hn']
-      ring
+      geq_cases
     · obtain ⟨j, rfl⟩ : ∃ v', j = v' + 1 := ⟨j - 1, by omega⟩
       simp only [↓reduceIte, hn, hn', hN, Nat.add_sub_cancel, Nat.add_eq_zero_iff, one_ne_zero, and_false,
         Nat.le_add_left, Nat.add_assoc, Nat.reduceAdd]
-      ring
+      geq_cases
 
 theorem convectionTvdRHSCylindrical2D_eq (M : Mesh α) (hk : M.kind = .cyl2) (u uUp : FaceFld α) (FL : α → α)
     (φ : CellFld α) (i j k : ℕ) (hi : i < M.ax.n) (hj : j < M.ay.n) :
@@ -620,7 +623,7 @@ theorem convectionTvdRHSCylindrical2D_eq (M : Mesh α) (hk : M.kind = .cyl2) (u 
   rw [hs, convectionTvdRHSCylindrical2D_x_eq M hk u uUp FL φ i j k hi, convectionTvdRHSCylindrical2D_y_eq M hk u uUp FL φ i j k hj]
   simp only [tvdRHS, divergence, sumDirs, hk, Kind.active, Kind.dim, Nat.not_ofNat_le_one, Nat.reduceLeDiff, le_refl,
     decide_true, decide_false, Bool.false_eq_true, ↓reduceIte, add_zero]
-  ring
+  geq_cases
 
 /-- without the extra argument the upwind direction is taken from `u` itself -/
 theorem convectionTvdRHSCylindrical2D_noarg_eq (M : Mesh α) (hk : M.kind = .cyl2) (u : FaceFld α) (FL : α → α)
@@ -643,20 +646,20 @@ theorem convectionTvdRHSPolar2D_x_eq (M : Mesh α) (hk : M.kind = .pol2) (u uUp 
   · rcases Nat.eq_zero_or_pos i with h0 | h0
     · subst h0; subst hn
       simp only [↓reduceIte, zero_add, hN]
-      ring
+      geq_cases
     · obtain ⟨i, rfl⟩ : ∃ v', i = v' + 1 := ⟨i - 1, by omega⟩
       simp only [↓reduceIte, hn, hN, Nat.add_sub_cancel, Nat.add_eq_zero_iff, one_ne_zero, and_false,
         Nat.le_add_left, Nat.add_assoc, Nat.reduceAdd]
-      ring
+      geq_cases
   · have hn' : i + 1 < N := by omega
     rcases Nat.eq_zero_or_pos i with h0 | h0
     · subst h0
       simp only [↓reduceIte, zero_add, hN, hn, hn']
-      ring
+      geq_cases
     · obtain ⟨i, rfl⟩ : ∃ v', i = v' + 1 := ⟨i - 1, by omega⟩
       simp only [↓reduceIte, hn, hn', hN, Nat.add_sub_cancel, Nat.add_eq_zero_iff, one_ne_zero, and_false,
         Nat.le_add_left, Nat.add_assoc, Nat.reduceAdd]
-      ring
+      geq_cases
 
 theorem convectionTvdRHSPolar2D_y_eq (M : Mesh α) (hk : M.kind = .pol2) (u uUp : FaceFld α) (FL : α → α)
     (φ : CellFld α) (i j k : ℕ) (hv : j < M.ay.n) :
@@ -673,20 +676,20 @@ theorem convectionTvdRHSPolar2D_y_eq (M : Mesh α) (hk : M.kind = .pol2) (u uUp 
   · rcases Nat.eq_zero_or_pos j with h0 | h0
     · subst h0; subst hn
       simp only [↓reduceIte, zero_add, hN]
-      ring
+      geq_cases
     · obtain ⟨j, rfl⟩ : ∃ v', j = v' + 1 := ⟨j - 1, by omega⟩
       simp only [↓reduceIte, hn, hN, Nat.add_sub_cancel, Nat.add_eq_zero_iff, one_ne_zero, and_false,
         Nat.le_add_left, Nat.add_assoc, Nat.reduceAdd]
-      ring
+      geq_cases
   · have hn' : j + 1 < N := by omega
     rcases Nat.eq_zero_or_pos j with h0 | h0
     · subst h0
       simp only [↓reduceIte, zero_add, hN, hn, hn']
-      ring
+      geq_cases
     · obtain ⟨j, rfl⟩ : ∃ v', j = v' + 1 := ⟨j - 1, by omega⟩
       simp only [↓reduceIte, hn, hn', hN, Nat.add_sub_cancel, Nat.add_eq_zero_iff, one_ne_zero, and_false,
         Nat.le_add_left, Nat.add_assoc, Nat.reduceAdd]
-      ring
+      geq_cases
 
 theorem convectionTvdRHSPolar2D_eq (M : Mesh α) (hk : M.kind = .pol2) (u uUp : FaceFld α) (FL : α → α)
     (φ : CellFld α) (i j k : ℕ) (hi : i < M.ax.n) (hj : j < M.ay.n) :
@@ -695,7 +698,7 @@ theorem convectionTvdRHSPolar2D_eq (M : Mesh α) (hk : M.kind = .pol2) (u uUp : 
   rw [hs, convectionTvdRHSPolar2D_x_eq M hk u uUp FL φ i j k hi, convectionTvdRHSPolar2D_y_eq M hk u uUp FL φ i j k hj]
   simp only [tvdRHS, divergence, sumDirs, hk, Kind.active, Kind.dim, Nat.not_ofNat_le_one, Nat.reduceLeDiff, le_refl,
     decide_true, decide_false, Bool.false_eq_true, ↓reduceIte, add_zero]
-  ring
+  geq_cases
 
 /-- without the extra argument the upwind direction is taken from `u` itself -/
 theorem convectionTvdRHSPolar2D_noarg_eq (M : Mesh α) (hk : M.kind = .pol2) (u : FaceFld α) (FL : α → α)
@@ -718,20 +721,20 @@ theorem convectionTvdRHS3D_x_eq (M : Mesh α) (hk : M.kind = .cart3) (u uUp : Fa
   · rcases Nat.eq_zero_or_pos i with h0 | h0
     · subst h0; subst hn
       simp only [↓reduceIte, zero_add, hN]
-      ring
+      geq_cases
     · obtain ⟨i, rfl⟩ : ∃ v', i = v' + 1 := ⟨i - 1, by omega⟩
       simp only [↓reduceIte, hn, hN, Nat.add_sub_cancel, Nat.add_eq_zero_iff, one_ne_zero, and_false,
         Nat.le_add_left, Nat.add_assoc, Nat.reduceAdd]
-      ring
+      geq_cases
   · have hn' : i + 1 < N := by omega
     rcases Nat.eq_zero_or_pos i with h0 | h0
     · subst h0
       simp only [↓reduceIte, zero_add, hN, hn, hn']
-      ring
+      geq_cases
     · obtain ⟨i, rfl⟩ : ∃ v', i = v' + 1 := ⟨i - 1, by omega⟩
       simp only [↓reduceIte, hn, hn', hN, Nat.add_sub_cancel, Nat.add_eq_zero_iff, one_ne_zero, and_false,
         Nat.le_add_left, Nat.add_assoc, Nat.reduceAdd]
-      ring
+      geq_cases
 
 theorem convectionTvdRHS3D_y_eq (M : Mesh α) (hk : M.kind = .cart3) (u uUp : FaceFld α) (FL : α → α)
     (φ : CellFld α) (i j k : ℕ) (hv : j < M.ay.n) :
@@ -748,20 +751,20 @@ theorem convectionTvdRHS3D_y_eq (M : Mesh α) (hk : M.kind = .cart3) (u uUp : Fa
   · rcases Nat.eq_zero_or_pos j with h0 | h0
     · subst h0; subst hn
       simp only [↓reduceIte, zero_add, hN]
-      ring
+      geq_cases
     · obtain ⟨j, rfl⟩ : ∃ v', j = v' + 1 := ⟨j - 1, by omega⟩
       simp only [↓reduceIte, hn, hN, Nat.add_sub_cancel, Nat.add_eq_zero_iff, one_ne_zero, and_false,
         Nat.le_add_left, Nat.add_assoc, Nat.reduceAdd]
-      ring
+      geq_cases
   · have hn' : j + 1 < N := by omega
     rcases Nat.eq_zero_or_pos j with h0 | h0
     · subst h0
       simp only [↓reduceIte, zero_add, hN, hn, hn']
-      ring
+      geq_cases
     · obtain ⟨j, rfl⟩ : ∃ v', j = v' + 1 := ⟨j - 1, by omega⟩
       simp only [↓reduceIte, hn, hn', hN, Nat.add_sub_cancel, Nat.add_eq_zero_iff, one_ne_zero, and_false,
         Nat.le_add_left, Nat.add_assoc, Nat.reduceAdd]
-      ring
+      geq_cases
 
 theorem convectionTvdRHS3D_z_eq (M : Mesh α) (hk : M.kind = .cart3) (u uUp : FaceFld α) (FL : α → α)
     (φ : CellFld α) (i j k : ℕ) (hv : k < M.az.n) :
@@ -778,20 +781,20 @@ theorem convectionTvdRHS3D_z_eq (M : Mesh α) (hk : M.kind = .cart3) (u uUp : Fa
   · rcases Nat.eq_zero_or_pos k with h0 | h0
     · subst h0; subst hn
       simp only [↓reduceIte, zero_add, hN]
-      ring
+      geq_cases
     · obtain ⟨k, rfl⟩ : ∃ v', k = v' + 1 := ⟨k - 1, by omega⟩
       simp only [↓reduceIte, hn, hN, Nat.add_sub_cancel, Nat.add_eq_zero_iff, one_ne_zero, and_false,
         Nat.le_add_left, Nat.add_assoc, Nat.reduceAdd]
-      ring
+      geq_cases
   · have hn' : k + 1 < N := by omega
     rcases Nat.eq_zero_or_pos k with h0 | h0
     · subst h0
       simp only [↓reduceIte, zero_add, hN, hn, hn']
-      ring
+      geq_cases
     · obtain ⟨k, rfl⟩ : ∃ v', k = v' + 1 := ⟨k - 1, by omega⟩
       simp only [↓reduceIte, hn, hn', hN, Nat.add_sub_cancel, Nat.add_eq_zero_iff, one_ne_zero, and_false,
         Nat.le_add_left, Nat.add_assoc, Nat.reduceAdd]
-      ring
+      geq_cases
 
 theorem convectionTvdRHS3D_eq (M : Mesh α) (hk : M.kind = .cart3) (u uUp : FaceFld α) (FL : α → α)
     (φ : CellFld α) (i j k : ℕ) (hi : i < M.ax.n) (hj : j < M.ay.n) (hl : k < M.az.n) :
@@ -800,7 +803,7 @@ theorem convectionTvdRHS3D_eq (M : Mesh α) (hk : M.kind = .cart3) (u uUp : Face
   rw [hs, convectionTvdRHS3D_x_eq M hk u uUp FL φ i j k hi, convectionTvdRHS3D_y_eq M hk u uUp FL φ i j k hj, convectionTvdRHS3D_z_eq M hk u uUp FL φ i j k hl]
   simp only [tvdRHS, divergence, sumDirs, hk, Kind.active, Kind.dim, Nat.not_ofNat_le_one, Nat.reduceLeDiff, le_refl,
     decide_true, decide_false, Bool.false_eq_true, ↓reduceIte, add_zero]
-  ring
+  geq_cases
 
 /-- without the extra argument the upwind direction is taken from `u` itself -/
 theorem convectionTvdRHS3D_noarg_eq (M : Mesh α) (hk : M.kind = .cart3) (u : FaceFld α) (FL : α → α)
@@ -823,20 +826,20 @@ theorem convectionTvdRHSCylindrical3D_x_eq (M : Mesh α) (hk : M.kind = .cyl3) (
   · rcases Nat.eq_zero_or_pos i with h0 | h0
     · subst h0; subst hn
       simp only [↓reduceIte, zero_add, hN]
-      ring
+      geq_cases
     · obtain ⟨i, rfl⟩ : ∃ v', i = v' + 1 := ⟨i - 1, by omega⟩
       simp only [↓reduceIte, hn, hN, Nat.add_sub_cancel, Nat.add_eq_zero_iff, one_ne_zero, and_false,
         Nat.le_add_left, Nat.add_assoc, Nat.reduceAdd]
-      ring
+      geq_cases
   · have hn' : i + 1 < N := by omega
     rcases Nat.eq_zero_or_pos i with h0 | h0
     · subst h0
       simp only [↓reduceIte, zero_add, hN, hn, hn']
-      ring
+      geq_cases
     · obtain ⟨i, rfl⟩ : ∃ v', i = v' + 1 := ⟨i - 1, by omega⟩
       simp only [↓reduceIte, hn, hn', hN, Nat.add_sub_cancel, Nat.add_eq_zero_iff, one_ne_zero, and_false,
         Nat.le_add_left, Nat.add_assoc, Nat.reduceAdd]
-      ring
+      geq_cases
 
 theorem convectionTvdRHSCylindrical3D_y_eq (M : Mesh α) (hk : M.kind = .cyl3) (u uUp : FaceFld α) (FL : α → α)
     (φ : CellFld α) (i j k : ℕ) (hv : j < M.ay.n) :
@@ -853,20 +856,20 @@ theorem convectionTvdRHSCylindrical3D_y_eq (M : Mesh α) (hk : M.kind = .cyl3) (
   · rcases Nat.eq_zero_or_pos j with h0 | h0
     · subst h0; subst hn
       simp only [↓reduceIte, zero_add, hN]
-      ring
+      geq_cases
     · obtain ⟨j, rfl⟩ : ∃ v', j = v' + 1 := ⟨j - 1, by omega⟩
       simp only [↓reduceIte, hn, hN, Nat.add_sub_cancel, Nat.add_eq_zero_iff, one_ne_zero, and_false,
         Nat.le_add_left, Nat.add_assoc, Nat.reduceAdd]
-      ring
+      geq_cases
   · have hn' : j + 1 < N := by omega
     rcases Nat.eq_zero_or_pos j with h0 | h0
     · subst h0
       simp only [↓reduceIte, zero_add, hN, hn, hn']
-      ring
+      geq_cases
     · obtain ⟨j, rfl⟩ : ∃ v', j = v' + 1 := ⟨j - 1, by omega⟩
       simp only [↓reduceIte, hn, hn', hN, Nat.add_sub_cancel, Nat.add_eq_zero_iff, one_ne_zero, and_false,
         Nat.le_add_left, Nat.add_assoc, Nat.reduceAdd]
-      ring
+      geq_cases
 
 theorem convectionTvdRHSCylindrical3D_z_eq (M : Mesh α) (hk : M.kind = .cyl3) (u uUp : FaceFld α) (FL : α → α)
     (φ : CellFld α) (i j k : ℕ) (hv : k < M.az.n) :
@@ -883,20 +886,20 @@ theorem convectionTvdRHSCylindrical3D_z_eq (M : Mesh α) (hk : M.kind = .cyl3) (
   · rcases Nat.eq_zero_or_pos k with h0 | h0
     · subst h0; subst hn
       simp only [↓reduceIte, zero_add, hN]
-      ring
+      geq_cases
     · obtain ⟨k, rfl⟩ : ∃ v', k = v' + 1 := ⟨k - 1, by omega⟩
       simp only [↓reduceIte, hn, hN, Nat.add_sub_cancel, Nat.add_eq_zero_iff, one_ne_zero, and_false,
         Nat.le_add_left, Nat.add_assoc, Nat.reduceAdd]
-      ring
+      geq_cases
   · have hn' : k + 1 < N := by omega
     rcases Nat.eq_zero_or_pos k with h0 | h0
     · subst h0
       simp only [↓reduceIte, zero_add, hN, hn, hn']
-      ring
+      geq_cases
     · obtain ⟨k, rfl⟩ : ∃ v', k = v' + 1 := ⟨k - 1, by omega⟩
       simp only [↓reduceIte, hn, hn', hN, Nat.add_sub_cancel, Nat.add_eq_zero_iff, one_ne_zero, and_false,
         Nat.le_add_left, Nat.add_assoc, Nat.reduceAdd]
-      ring
+      geq_cases
 
 theorem convectionTvdRHSCylindrical3D_eq (M : Mesh α) (hk : M.kind = .cyl3) (u uUp : FaceFld α) (FL : α → α)
     (φ : CellFld α) (i j k : ℕ) (hi : i < M.ax.n) (hj : j < M.ay.n) (hl : k < M.az.n) :
@@ -905,7 +908,7 @@ theorem convectionTvdRHSCylindrical3D_eq (M : Mesh α) (hk : M.kind = .cyl3) (u 
   rw [hs, convectionTvdRHSCylindrical3D_x_eq M hk u uUp FL φ i j k hi, convectionTvdRHSCylindrical3D_y_eq M hk u uUp FL φ i j k hj, convectionTvdRHSCylindrical3D_z_eq M hk u uUp FL φ i j k hl]
   simp only [tvdRHS, divergence, sumDirs, hk, Kind.active, Kind.dim, Nat.not_ofNat_le_one, Nat.reduceLeDiff, le_refl,
     decide_true, decide_false, Bool.false_eq_true, ↓reduceIte, add_zero]
-  ring
+  geq_cases
 
 /-- without the extra argument the upwind direction is taken from `u` itself -/
 theorem convectionTvdRHSCylindrical3D_noarg_eq (M : Mesh α) (hk : M.kind = .cyl3) (u : FaceFld α) (FL : α → α)
@@ -928,20 +931,20 @@ theorem convectionTvdRHSSpherical3D_x_eq (M : Mesh α) (hk : M.kind = .sph3) (u 
   · rcases Nat.eq_zero_or_pos i with h0 | h0
     · subst h0; subst hn
       simp only [↓reduceIte, zero_add, hN]
-      ring
+      geq_cases
     · obtain ⟨i, rfl⟩ : ∃ v', i = v' + 1 := ⟨i - 1, by omega⟩
       simp only [↓reduceIte, hn, hN, Nat.add_sub_cancel, Nat.add_eq_zero_iff, one_ne_zero, and_false,
         Nat.le_add_left, Nat.add_assoc, Nat.reduceAdd]
-      ring
+      geq_cases
   · have hn' : i + 1 < N := by omega
     rcases Nat.eq_zero_or_pos i with h0 | h0
     · subst h0
       simp only [↓reduceIte, zero_add, hN, hn, hn']
-      ring
+      geq_cases
     · obtain ⟨i, rfl⟩ : ∃ v', i = v' + 1 := ⟨i - 1, by omega⟩
       simp only [↓reduceIte, hn, hn', hN, Nat.add_sub_cancel, Nat.add_eq_zero_iff, one_ne_zero, and_false,
         Nat.le_add_left, Nat.add_assoc, Nat.reduceAdd]
-      ring
+      geq_cases
 
 theorem convectionTvdRHSSpherical3D_y_eq (M : Mesh α) (hk : M.kind = .sph3) (u uUp : FaceFld α) (FL : α → α)
     (φ : CellFld α) (i j k : ℕ) (hv : j < M.ay.n) :
@@ -958,20 +961,20 @@ theorem convectionTvdRHSSpherical3D_y_eq (M : Mesh α) (hk : M.kind = .sph3) (u 
   · rcases Nat.eq_zero_or_pos j with h0 | h0
     · subst h0; subst hn
       simp only [↓reduceIte, zero_add, hN]
-      ring
+      geq_cases
     · obtain ⟨j, rfl⟩ : ∃ v', j = v' + 1 := ⟨j - 1, by omega⟩
       simp only [↓reduceIte, hn, hN, Nat.add_sub_cancel, Nat.add_eq_zero_iff, one_ne_zero, and_false,
         Nat.le_add_left, Nat.add_assoc, Nat.reduceAdd]
-      ring
+      geq_cases
   · have hn' : j + 1 < N := by omega
     rcases Nat.eq_zero_or_pos j with h0 | h0
     · subst h0
       simp only [↓reduceIte, zero_add, hN, hn, hn']
-      ring
+      geq_cases
     · obtain ⟨j, rfl⟩ : ∃ v', j = v' + 1 := ⟨j - 1, by omega⟩
       simp only [↓reduceIte, hn, hn', hN, Nat.add_sub_cancel, Nat.add_eq_zero_iff, one_ne_zero, and_false,
         Nat.le_add_left, Nat.add_assoc, Nat.reduceAdd]
-      ring
+      geq_cases
 
 theorem convectionTvdRHSSpherical3D_z_eq (M : Mesh α) (hk : M.kind = .sph3) (u uUp : FaceFld α) (FL : α → α)
     (φ : CellFld α) (i j k : ℕ) (hv : k < M.az.n) :
@@ -988,20 +991,20 @@ theorem convectionTvdRHSSpherical3D_z_eq (M : Mesh α) (hk : M.kind = .sph3) (u 
   · rcases Nat.eq_zero_or_pos k with h0 | h0
     · subst h0; subst hn
       simp only [↓reduceIte, zero_add, hN]
-      ring
+      geq_cases
     · obtain ⟨k, rfl⟩ : ∃ v', k = v' + 1 := ⟨k - 1, by omega⟩
       simp only [↓reduceIte, hn, hN, Nat.add_sub_cancel, Nat.add_eq_zero_iff, one_ne_zero, and_false,
         Nat.le_add_left, Nat.add_assoc, Nat.reduceAdd]
-      ring
+      geq_cases
   · have hn' : k + 1 < N := by omega
     rcases Nat.eq_zero_or_pos k with h0 | h0
     · subst h0
       simp only [↓reduceIte, zero_add, hN, hn, hn']
-      ring
+      geq_cases
     · obtain ⟨k, rfl⟩ : ∃ v', k = v' + 1 := ⟨k - 1, by omega⟩
       simp only [↓reduceIte, hn, hn', hN, Nat.add_sub_cancel, Nat.add_eq_zero_iff, one_ne_zero, and_false,
         Nat.le_add_left, Nat.add_assoc, Nat.reduceAdd]
-      ring
+      geq_cases
 
 theorem convectionTvdRHSSpherical3D_eq (M : Mesh α) (hk : M.kind = .sph3) (u uUp : FaceFld α) (FL : α → α)
     (φ : CellFld α) (i j k : ℕ) (hi : i < M.ax.n) (hj : j < M.ay.n) (hl : k < M.az.n) :
@@ -1010,7 +1013,7 @@ theorem convectionTvdRHSSpherical3D_eq (M : Mesh α) (hk : M.kind = .sph3) (u uU
   rw [hs, convectionTvdRHSSpherical3D_x_eq M hk u uUp FL φ i j k hi, convectionTvdRHSSpherical3D_y_eq M hk u uUp FL φ i j k hj, convectionTvdRHSSpherical3D_z_eq M hk u uUp FL φ i j k hl]
   simp only [tvdRHS, divergence, sumDirs, hk, Kind.active, Kind.dim, Nat.not_ofNat_le_one, Nat.reduceLeDiff, le_refl,
     decide_true, decide_false, Bool.false_eq_true, ↓reduceIte, add_zero]
-  ring
+  geq_cases
 
 /-- without the extra argument the upwind direction is taken from `u` itself -/
 theorem convectionTvdRHSSpherical3D_noarg_eq (M : Mesh α) (hk : M.kind = .sph3) (u : FaceFld α) (FL : α → α)
